@@ -148,6 +148,16 @@ def build(tree: typing.Any, spell: _Lcg, registry: typing.List[typing.Tuple[typi
     return b
 
 
+def _has_huge_alignment(tree: typing.Any) -> bool:
+    if tree[0] == "leaf":
+        return False
+    if tree[0] == "pad":
+        return tree[2] > 2**16 or _has_huge_alignment(tree[1])
+    if tree[0] in ("rep", "rng"):
+        return _has_huge_alignment(tree[1])
+    return any(_has_huge_alignment(c) for c in tree[1])
+
+
 class Oracle:
     """Model answers for one tree, with tractability gating."""
 
@@ -171,7 +181,9 @@ class Oracle:
         try:
             r = ref.residues(self.tree, d)
         except ref.TooBig:
-            return None
+            # (an alignment far beyond the modular model's reach: the explicit model alone answers, where the set is small enough)
+            ex0 = self.explicit()
+            return frozenset(x % d for x in ex0) if ex0 is not None and self.expansion_tractable() else None
         ex = self.explicit()
         if ex is not None:
             self.c["model_cross_checks"] = self.c.get("model_cross_checks", 0) + 1
@@ -183,7 +195,9 @@ class Oracle:
         try:
             return ref.modulo_cost(self.tree, d) <= self.cost_limit
         except ref.TooBig:
-            return False
+            # the cost model works on residue masks and gives up on moduli beyond 2**22 (lcm with a huge alignment); for sets that
+            # may be expanded numerically the solver's cost under such a modulus is that of the expansion
+            return _has_huge_alignment(self.tree) and self.expansion_tractable()
 
     def expansion_tractable(self) -> bool:
         return self.explicit() is not None and ref.expansion_tractable(self.tree, ref.EXPLICIT_LIMIT, EXPANSION_LIMIT, VALIDATION_LIMIT)
